@@ -26,6 +26,7 @@
     (LP64; sums of sizes stay far below 2^64).
 -/
 import RtoscModel.Osc.Length
+import RtoscModel.Osc.BufFast
 namespace Rtosc.Osc
 open Rtosc
 
@@ -166,6 +167,41 @@ def BW.stores (w : BW) : Nat → Bytes → BW
   | _, [] => w
   | i, b :: r => (w.store i b).stores (i + 1) r
 
+/-- inside the buffer, `stores` is a splice -/
+theorem stores_eq : ∀ (l : Bytes) (w : BW) (i : Nat), i + l.length ≤ w.buf.length →
+    w.stores i l = ⟨w.buf.take i ++ l ++ w.buf.drop (i + l.length), w.oob⟩ := by
+  intro l
+  induction l with
+  | nil => intro w i _; simp [BW.stores]
+  | cons b r ih =>
+    intro w i h
+    simp only [List.length_cons] at h
+    have hi : i < w.buf.length := by omega
+    simp only [BW.stores, BW.store, if_pos hi]
+    rw [ih _ (i + 1) (by simp; omega)]
+    simp only [List.length_cons]
+    have h1 : (w.buf.set i b).take (i + 1) = w.buf.take i ++ [b] := by
+      apply List.ext_getElem?
+      intro j
+      grind
+    have h2 : (w.buf.set i b).drop (i + 1 + r.length) = w.buf.drop (i + (r.length + 1)) := by
+      rw [List.drop_set_of_lt (by omega)]; congr 1; omega
+    rw [h1, h2]; simp
+
+/-- what the compiled driver runs for `BW.stores`: the splice when the stores stay inside the
+    buffer (linear instead of quadratic on a `List`), the byte-by-byte definition otherwise.
+    Proved equal below; the theorems are all about `BW.stores`. -/
+def BW.storesFast (w : BW) (i : Nat) (l : Bytes) : BW :=
+  if i + l.length ≤ w.buf.length then ⟨w.buf.take i ++ l ++ w.buf.drop (i + l.length), w.oob⟩
+  else w.stores i l
+
+@[csimp] theorem BW.stores_eq_storesFast : @BW.stores = @BW.storesFast := by
+  funext w i l
+  unfold BW.storesFast
+  split
+  · next h => exact stores_eq l w i h
+  · rfl
+
 /-- the first pass of the repaired `rtosc_bundle`:
     `total_len += 4+rtosc_message_length(va_arg(va, const char*), -1)` -/
 def bundleTotal : Nat → List Bytes → Rd Nat
@@ -286,26 +322,65 @@ def appendBundle (dst src : Bytes) (maxLen dstLen srcLen : Nat) : Rd BResult :=
     .ok ⟨w.buf, dstLen + srcLen + 4, w.oob⟩
   else .oob
 
+/-! ### callers that own a block and *claim* a capacity (C02)
+
+  In `amessage` / `vmessage` the capacity is the length of the buffer (`len = buffer.length`), so a
+  caller that passes a wrong `len` cannot be expressed.  `callAt` separates the two: the caller
+  owns the block `blk` and tells the constructor `len`.  The constructor behaves as on a buffer of
+  `len` bytes; a store at an index `≥ blk.length` is outside the caller's block (flag `oob`).
+  With the NULL pointer the constructors return the size before they look at `len`. -/
+
+/-- `call` is a constructor with `len = buffer.length`; the bytes it may touch are
+    `[0, len)` when it fails closed (`memset(buffer,0,len)`) and `[0, size)` when it fits. -/
+def callAt (call : Option Bytes → Option AResult) (blk : Option Bytes) (len : Nat) : Option AResult :=
+  match blk with
+  | none => call none                                   -- `if(!buffer) return total_len;`
+  | some b =>
+    match call (some (b.take len ++ zeros (len - b.length))), call none with
+    | some r, some z =>
+      let touched := if z.ret > len then len else z.ret
+      some ⟨r.buf.map (fun x => x.take b.length ++ b.drop len), r.ret,
+            r.oob || decide (b.length < touched)⟩
+    | _, _ => none
+
+/-- `rtosc_amessage(buffer, len, address, arguments, args)` as a C caller sees it: the block the
+    pointer points into and the `len` it passes are independent. -/
+def amessageAt (blk : Option Bytes) (len : Nat) (addr tags : Bytes) (args : List CArg) : Option AResult :=
+  callAt (fun buf => amessage buf addr tags args) blk len
+
+/-- `rtosc_vmessage(buffer, len, address, arguments, va)` likewise -/
+def vmessageAt (narrow : UInt64 → UInt32) (blk : Option Bytes) (len : Nat) (addr tags : Bytes)
+    (va : List VaArg) : Option AResult :=
+  callAt (fun buf => vmessage narrow buf addr tags va) blk len
+
+/-- `rtosc_message(buffer, len, address, arguments, ...)` (rtosc.c:168):
+    `va_start; result = rtosc_vmessage(buffer,len,address,arguments,va); va_end; return result;`
+    — nothing is stored by `rtosc_message` itself.  `va` = the promoted values of the call site. -/
+def rtoscMessage (narrow : UInt64 → UInt32) (blk : Option Bytes) (len : Nat) (addr tags : Bytes)
+    (va : List VaArg) : Option AResult :=
+  vmessageAt narrow blk len addr tags va
+
 /-! ### the C++ wrappers that build into fixed buffers (C02) -/
 
 /-- `ThreadLink::writeArray` up to the hand-off to the ring:
-    `rtosc_amessage(write_buffer, MaxMsg, dest, args, aargs)`; `wbuf` is `write_buffer`
-    (`MaxMsg = wbuf.length`). -/
-def tlinkWriteArray (wbuf : Bytes) (addr tags : Bytes) (args : List CArg) : Option AResult :=
-  amessage (some wbuf) addr tags args
+    `rtosc_amessage(write_buffer, MaxMsg, dest, args, aargs)`; `wbuf` is the block behind
+    `write_buffer` (`new char[MaxMsg]` in the constructor), `maxMsg` the member `MaxMsg`. -/
+def tlinkWriteArray (wbuf : Bytes) (maxMsg : Nat) (addr tags : Bytes) (args : List CArg) : Option AResult :=
+  amessageAt (some wbuf) maxMsg addr tags args
 
 /-- `ThreadLink::write(dest, args, ...)`: `rtosc_vmessage(write_buffer, MaxMsg, dest, args, va)`;
     `va` are the promoted values of the call site. -/
-def tlinkWrite (narrow : UInt64 → UInt32) (wbuf : Bytes) (addr tags : Bytes) (va : List VaArg) :
-    Option AResult :=
-  vmessage narrow (some wbuf) addr tags va
+def tlinkWrite (narrow : UInt64 → UInt32) (wbuf : Bytes) (maxMsg : Nat) (addr tags : Bytes)
+    (va : List VaArg) : Option AResult :=
+  vmessageAt narrow (some wbuf) maxMsg addr tags va
 
 /-- `RtData::reply(path,args,...)` / `RtData::broadcast(path,args,...)`:
-    `char buffer[8192]; rtosc_vmessage(buffer,8192,path,args,va);` — `stack` is what the
-    8192 bytes hold before the call. -/
-def rtdataReply (narrow : UInt64 → UInt32) (stack : Bytes) (addr tags : Bytes) (va : List VaArg) :
-    Option AResult :=
-  vmessage narrow (some stack) addr tags va
+    `char buffer[N]; rtosc_vmessage(buffer,C,path,args,va);` — `stack` is what the `N` bytes hold
+    before the call, `cap` is the `C` the wrapper passes (N = C = 8192 in the unchanged source;
+    the check reads both numbers from src/cpp/ports.cpp of the tree it runs on). -/
+def rtdataReply (narrow : UInt64 → UInt32) (stack : Bytes) (cap : Nat) (addr tags : Bytes)
+    (va : List VaArg) : Option AResult :=
+  vmessageAt narrow (some stack) cap addr tags va
 
 /-! ### taking a packet apart completely (what a receiver does with the readers) -/
 
